@@ -5,6 +5,7 @@ mod astsexp;
 mod devtools;
 mod exec;
 mod progen;
+mod progen_c16;
 mod model;
 mod props;
 mod report;
